@@ -146,7 +146,22 @@ func NewHTTPReverseProxy(option HTTPReverseProxyOptions, vhostRouter *Routers) *
 			_, _ = rw.Write(getNotFoundPageContent())
 		},
 	}
-	rp.proxy = h2c.NewHandler(proxy, &http2.Server{})
+	// Requests of an h2c connection after the one that opened it (RFC 7540 section 3.2 upgrade or
+	// section 3.4 prior knowledge) are handed by the HTTP/2 server straight to the handler wrapped
+	// here; they do not pass ServeHTTP and their context is derived from the opening request's.
+	// Resolve the route and check the credentials of every request the wrapped handler sees.
+	rp.proxy = h2c.NewHandler(http.HandlerFunc(func(rw http.ResponseWriter, req *http.Request) {
+		newreq, ok := rp.authorize(rw, req)
+		if !ok {
+			return
+		}
+		if newreq.Context().Value(RouteConfigKey).(*RouteConfig) == nil {
+			rw.WriteHeader(http.StatusNotFound)
+			_, _ = rw.Write(getNotFoundPageContent())
+			return
+		}
+		proxy.ServeHTTP(rw, newreq)
+	}), &http2.Server{})
 	return rp
 }
 
@@ -325,7 +340,9 @@ func (rp *HTTPReverseProxy) injectRequestInfoToCtx(req *http.Request) *http.Requ
 	return req.Clone(newctx)
 }
 
-func (rp *HTTPReverseProxy) ServeHTTP(rw http.ResponseWriter, req *http.Request) {
+// authorize resolves the route of req, stores it in the request context and checks the request's
+// credentials against that route. It answers the 401 challenge itself and returns false then.
+func (rp *HTTPReverseProxy) authorize(rw http.ResponseWriter, req *http.Request) (*http.Request, bool) {
 	domain, _ := httppkg.CanonicalHost(req.Host)
 	location := req.URL.Path
 	user, passwd, _ := req.BasicAuth()
@@ -336,6 +353,14 @@ func (rp *HTTPReverseProxy) ServeHTTP(rw http.ResponseWriter, req *http.Request)
 	if !rp.CheckAuth(domain, location, routeUser, user, passwd) {
 		rw.Header().Set("WWW-Authenticate", `Basic realm="Restricted"`)
 		http.Error(rw, http.StatusText(http.StatusUnauthorized), http.StatusUnauthorized)
+		return nil, false
+	}
+	return newreq, true
+}
+
+func (rp *HTTPReverseProxy) ServeHTTP(rw http.ResponseWriter, req *http.Request) {
+	newreq, ok := rp.authorize(rw, req)
+	if !ok {
 		return
 	}
 
